@@ -9,7 +9,8 @@ and a raw block wrote through `Write`, so the hyphen of a NEIGHBOUR reached into
 `{{ x -}}{% raw %}␠␠y{% endraw %}` rendered `Xy` — against C05 ("a string value printed by an object
 is emitted exactly", "the body of a raw block is emitted exactly as written"). Now `ObjectNode.render`
 and `RawNode.render` write through `trimWriter.WriteVerbatim` (`writeVerbatimM`: drop a pending right
-trim, write, flush), and the statements the deviation made false are theorems:
+trim, write, flush; so does what a tag writes — the output of an included file, `include_denotation_run`
+in `Proofs/C14.lean` —), and the statements the deviation made false are theorems:
 
 * `object_writes_value_verbatim`, `raw_writes_body_verbatim`: from EVERY state of the trim writer (any
   text pending, a right trim pending or not) the node lets the pending text out unchanged, then its own
